@@ -133,7 +133,7 @@ def main():
                        "reason": NOT_YET.get(pid, "check not built yet in this revision (work in progress; the technique applies, see DESIGN.md section 6)")})
     m = {
         "version": 1,
-        "setup_cmd": "/venv/bin/python -c 'import hypothesis' 2>/dev/null || /venv/bin/pip install --no-index --find-links /opt/veriftools/wheels --target /verif/.deps hypothesis",
+        "setup_cmd": "(/venv/bin/python -c 'import hypothesis' 2>/dev/null || /venv/bin/pip install --no-index --find-links /opt/veriftools/wheels --target /verif/.deps hypothesis) && (PYTHONPATH=/verif/.deps /venv/bin/python -c 'import atheris' 2>/dev/null || /venv/bin/pip install -q --no-index --find-links /opt/veriftools/wheels --target /verif/.deps atheris || true)",
         "hooks": {
             "guard": "PARGLARE_VERIF",
             "enable": "no hooks are needed: parglare is pure Python and every check imports it from /repo's working tree (PYTHONPATH=/repo); step budgets use sys.monitoring, fault injection shadows names from the harness",
